@@ -358,7 +358,7 @@ def _ref_punwrap(kind):
         if st != 'OK' or k != kind:
             return {'ret': NZ}
         if kind == 'share' and not 1 <= key[0] <= 16:
-            return {'ret': E['BAD_SECKEY']}       # bpki.h: \expect{ERR_BAD_SECKEY} 1 <= share[0] <= 16
+            return {'ret': E['BAD_SHAREKEY']}     # bpki.h: \expect{ERR_BAD_SHAREKEY} 1 <= share[0] <= 16 (header corrected by fix 28df01f)
         return {'ret': 0, 'key': key, 'key_len': len(key)}
     return ref
 for _kind, _name in (('privkey', 'bpkiPrivkeyUnwrap'), ('share', 'bpkiShareUnwrap')):
